@@ -42,16 +42,28 @@ try:
     meta["applies_to_head"] = True
     r1 = sh(f"cd {wt} && /venv/bin/python {demo}", env=env) if demo.exists() else None
     t = sh(f"cd {wt} && /venv/bin/python -m pytest -q -p no:cacheprovider --timeout=900 test 2>&1 | tail -8", env=env)
+    failed = [l.split()[1] for l in t.stdout.split("\n") if l.startswith("FAILED")]
+    still = []
+    for tid in failed:  # the constexpr tests have a 1 s child timeout: retry failed tests one at a time
+        ok = False
+        for _ in range(4):
+            rr = sh(f"cd {wt} && /venv/bin/python -m pytest -q -p no:cacheprovider --timeout=900 '{tid}' 2>&1 | tail -3", env=env)
+            if " passed" in rr.stdout and "failed" not in rr.stdout:
+                ok = True
+                break
+        if not ok:
+            still.append(tid)
     meta["confirmed"] = dict(
         demo_unchanged_exit=r0.returncode if r0 else None,
         demo_changed_exit=r1.returncode if r1 else None,
         demo_changed_tail=(r1.stdout + r1.stderr)[-400:] if r1 else None,
         suite_with_change=t.stdout.strip().split("\n")[-1],
         suite_failures=[l for l in t.stdout.split("\n") if l.startswith("FAILED")],
+        suite_failures_after_retry_one_at_a_time=still,
         ran=[f"PYTHONPATH=<scratch worktree>/src /venv/bin/python demo.py (before / after git apply patch.diff)",
              "PYTHONPATH=<scratch worktree>/src /venv/bin/python -m pytest -q -p no:cacheprovider --timeout=900 test"],
     )
-    print("demo unchanged exit", r0.returncode if r0 else None, "| demo changed exit", r1.returncode if r1 else None, "|", meta["confirmed"]["suite_with_change"])
+    print("demo unchanged exit", r0.returncode if r0 else None, "| demo changed exit", r1.returncode if r1 else None, "|", meta["confirmed"]["suite_with_change"], "| still failing after retry:", still)
 finally:
     sh(f"git -C /repo worktree remove --force {wt}")
 
